@@ -96,6 +96,10 @@ def linear_map(b, op, from_inverse, R, call=None):
             return ("refuse", "draw_sample returned None")
         n = nz.count
         mean = b.flat(s0)
+        if not np.all(np.isfinite(mean)):
+            # the inverse of an exactly singular diagonal (D - D collapses to a zero diagonal): NumPy's division by zero gives inf / nan with
+            # a RuntimeWarning - not a usable sample; counted as a refusal (nothing silently plausible is returned)
+            return ("refuse", "non-finite sample")
         cols = []
         for k in range(n):
             nz.hot, nz.count = k, 0
@@ -139,7 +143,9 @@ def check_program(r, dtype_name, R):
                 from_inverse, "'s inverse" if from_inverse else "", None if cov_ref is None else np.round(cov_ref, 4).tolist())))
             continue
         cov = L @ L.conj().T
-        cplx_draw = np.iscomplexobj(L) and np.max(np.abs(L.imag)) > 0
+        # complex sampling dtype: real and imaginary part of every excitation have unit variance each (E|x|^2 = 2); a complex L under a REAL
+        # sampling dtype only means that a complex operator (a bun) was applied to real excitations
+        cplx_draw = dtype_name == "complex"
         ref = 2 * cov_ref if cplx_draw else cov_ref
         if cov.shape != ref.shape or not np.allclose(cov, ref, rtol=1e-10, atol=1e-12):
             out.append(("covariance", "draw_sample(from_inverse=%s, dtype=%s): covariance of the sample is %s, the operator%s is %s%s" % (
@@ -200,7 +206,9 @@ def run(ctx):
     q = ctx.quick
     e1 = ctx.tlc("OpAlgebra", CFG % (1, "TRUE"), label="all leaves", workers=1)
     e2 = ctx.tlc("OpAlgebra", CFG % (2, "TRUE"), label="all 2-slot programs", workers=1, timeout=1500)
-    progs = e1.emitted + e2.emitted
+    f3 = ctx.tlc("OpAlgebra", (CFG % (3 if q else 4, "TRUE")).replace('Focus = "all"', 'Focus = "diag"'), label="all %d-slot programs over the focused leaves" % (3 if q else 4),
+                 workers=1, timeout=3000)
+    progs = e1.emitted + e2.emitted + f3.emitted
     if q:
         s3 = ctx.tlc("OpAlgebra", CFG % (3, "TRUE"), label="simulated 3-slot programs", workers=1, simulate=600, depth=4, seed=ctx.seed + 13, timeout=1500)
         progs += s3.emitted
